@@ -22,8 +22,11 @@ use tuikit::prelude::{Term, TermOptions};
 
 type Chunks = Vec<(u64, Vec<String>)>;
 
+type Supplied = Arc<std::sync::Mutex<Vec<Arc<dyn SkimItem>>>>;
+
 struct Feeder {
     cmds: HashMap<String, Chunks>,
+    supplied: Supplied,
 }
 
 impl CommandCollector for Feeder {
@@ -35,6 +38,7 @@ impl CommandCollector for Feeder {
         // nothing is delivered before the loop iteration that started this reader has ended, so that the
         // recorded trace linearises exactly (see vlib/props/session.py)
         let c0 = sched::count("loop.iter_end");
+        let supplied = self.supplied.clone();
         thread::spawn(move || {
             let t0 = Instant::now();
             while sched::count("loop.iter_end") <= c0 && t0.elapsed() < Duration::from_millis(200) {
@@ -49,7 +53,9 @@ impl CommandCollector for Feeder {
                     return;
                 }
                 for it in items {
-                    if tx_item.send(Arc::new(it)).is_err() {
+                    let arc: Arc<dyn SkimItem> = Arc::new(it);
+                    supplied.lock().unwrap().push(arc.clone());
+                    if tx_item.send(arc).is_err() {
                         return;
                     }
                 }
@@ -131,7 +137,8 @@ pub fn run_session(opts: &str, cmds: &str, events: &str, rules: &str) -> Session
                 .find(|o| o.starts_with(&format!("{}=", k)))
                 .map(|o| o[k.len() + 1..].to_string())
         };
-        let feeder = Rc::new(RefCell::new(Feeder { cmds }));
+        let supplied: Supplied = Arc::new(std::sync::Mutex::new(Vec::new()));
+        let feeder = Rc::new(RefCell::new(Feeder { cmds, supplied: supplied.clone() }));
         let mut options = SkimOptionsBuilder::default().build().unwrap();
         options.multi = has("multi");
         options.select1 = has("select1");
@@ -158,7 +165,7 @@ pub fn run_session(opts: &str, cmds: &str, events: &str, rules: &str) -> Session
         let s = match out {
             None => "none".to_string(),
             Some(o) => format!(
-                "abort={} event={} key={} query={} cmd={} items={}",
+                "abort={} event={} key={} query={} cmd={} items={} ptr={}",
                 o.is_abort,
                 format!("{:?}", o.final_event).replace(' ', "_"),
                 format!("{:?}", o.final_key).replace(' ', "_"),
@@ -166,6 +173,20 @@ pub fn run_session(opts: &str, cmds: &str, events: &str, rules: &str) -> Session
                 enc_str(&o.cmd),
                 {
                     let v: Vec<String> = o.selected_items.iter().map(|i| enc_str(&i.output())).collect();
+                    if v.is_empty() {
+                        "_".to_string()
+                    } else {
+                        v.join(",")
+                    }
+                },
+                {
+                    // is every returned item the very object that was supplied?
+                    let sup = supplied.lock().unwrap();
+                    let v: Vec<String> = o
+                        .selected_items
+                        .iter()
+                        .map(|i| if sup.iter().any(|s| Arc::ptr_eq(s, i)) { "1".to_string() } else { "0".to_string() })
+                        .collect();
                     if v.is_empty() {
                         "_".to_string()
                     } else {
@@ -229,7 +250,16 @@ pub fn run_session(opts: &str, cmds: &str, events: &str, rules: &str) -> Session
                 }
             }
             "accept" => {
-                send(Event::EvActAccept(arg.map(dec_str)), &mut sent_user);
+                // accept[:<arg enc>[:<key name enc>]]
+                let mut parts = arg.unwrap_or("").splitn(2, ':');
+                let a = parts.next().filter(|a| !a.is_empty()).map(dec_str);
+                let key = parts
+                    .next()
+                    .and_then(|k| tuikit::key::from_keyname(&dec_str(k)))
+                    .unwrap_or(Key::Null);
+                sent_user += 1;
+                sched::log(format!("user EvActAccept"));
+                let _ = tx.send((key, Event::EvActAccept(a)));
                 finished = true;
             }
             "abort" => {
